@@ -253,6 +253,30 @@ def replay(w):
     with warnings.catch_warnings():
         warnings.simplefilter('ignore')
         x = np.array(w['x'], float) if 'x' in w else _x(k=w.get('sig', 0))
+        if kind == 'dtype':
+            # the same samples stored as integers (raw ADC counts) or single precision: same decomposition as their float64 copy,
+            # and every component is still get_next_imf of the input minus the components before it
+            xt = np.round(x * 1000).astype(w['dtype']) if w['dtype'].startswith('int') else x.astype(w['dtype'])
+            x64 = xt.astype(np.float64)
+            fn = {'sift': S.sift, 'mask_sift': lambda v, max_imfs=None: S.mask_sift(v, mask_freqs=0.1, **({} if max_imfs is None else {'max_imfs': max_imfs}))}[w.get('variant', 'sift')]
+            try:
+                a = fn(xt.copy(), max_imfs=w.get('cap'))
+                b = fn(x64.copy(), max_imfs=w.get('cap'))
+            except emd.support.EMDSiftCovergeError:
+                return False, 'convergence error (C04)'
+            except Exception as ex:
+                return True, '%s on %s input raised %s: %s' % (w.get('variant', 'sift'), w['dtype'], type(ex).__name__, ex)
+            tol = 1e-9 if w['dtype'].startswith('int') else 1e-4        # (single-precision input: statistics such as the mask amplitude are computed in float32)
+            if a.shape != b.shape or not np.allclose(a, b, rtol=tol, atol=tol * max(1.0, np.abs(x64).max())):
+                return True, '%s on %s input gives %s components, its float64 copy gives %s (max diff %s)' % (
+                    w.get('variant', 'sift'), w['dtype'], a.shape, b.shape, np.abs(a - b).max() if a.shape == b.shape else 'n/a')
+            if w.get('variant', 'sift') == 'sift':
+                for k in range(a.shape[1]):
+                    resid = x64[:, None] - a[:, :k].sum(axis=1)[:, None] if k else x64[:, None].copy()
+                    comp, _ = S.get_next_imf(resid)
+                    if not np.allclose(comp[:, 0], a[:, k], rtol=1e-9, atol=1e-9 * max(1.0, np.abs(x64).max())):
+                        return True, 'component %d of sift(%s input) is not get_next_imf applied to the input minus the first %d components (max diff %.3g)' % (k, w['dtype'], k, np.abs(comp[:, 0] - a[:, k]).max())
+            return False, 'ok'
         if kind == 'prefix':
             f = {'sift': lambda **k: S.sift(x, **k), 'mask_sift': lambda **k: S.mask_sift(x, **k)}[w['variant']]
             try:
@@ -340,6 +364,18 @@ def refute(tier, seed, emit):
         ok, msg = replay(w)
         if ok:
             emit.violation('kth-component-is-extraction-from-residual', w, msg)
+        if emit.full:
+            return
+    emit.scope('%d signals stored as int64 / int32 (rounded to counts) / float32 x {sift, mask_sift} x caps {None, 3}: same components as the float64 copy of the same samples; sift column k = get_next_imf(input - first k columns)' % nsig)
+    for si in range(nsig):
+        for dt in ('int64', 'int32', 'float32'):
+            for variant in ('sift', 'mask_sift'):
+                for cap in (None, 3):
+                    emit.case(('dtype', si, dt, variant, cap), nontrivial=dt != 'float32', contract=variant)
+                    w = {'kind': 'dtype', 'sig': si, 'dtype': dt, 'variant': variant, 'cap': cap}
+                    ok, msg = replay(w)
+                    if ok:
+                        emit.violation('kth-component-is-extraction-from-residual:%s-input' % dt, w, msg)
         if emit.full:
             return
     caps = [1, 2, 3, 6, 9] if tier == 'quick' else [1, 2, 3, 4, 6, 9, 12]      # (caps above the natural number of IMFs included)
